@@ -60,3 +60,12 @@ PROPS["C02"] = dict(
     assumptions=["HMAC/SHA are functions (uninterpreted)"],
     bounded=[],
 )
+
+PROPS["C06"] = dict(
+    level="proof",
+    modules=["contracts.c_bech32", "contracts.c_script_pub_key", "contracts.c_base58"],
+    not_decided=["string-level decoders (bech32._decode, base58.decode, WIF/xkey) are outside the executed subset (str values): bounded stand-ins against independent reference decoders",
+                 "polymod/closure lemmas: all symbol values, sequence lengths 1..8 (length is the bound)"],
+    assumptions=["sha256 is a function"],
+    bounded=[],
+)
